@@ -7427,3 +7427,38 @@ let all_schemas =
     schema_66) :: (((Npos (XI (XI (XO (XO (XO (XO XH))))))),
     schema_67) :: (((Npos (XO (XO (XI (XO (XO (XO XH))))))),
     schema_68) :: []))))))))))))))))))))))))))))))))))))))))))))))))))))))))))))))))))))
+
+(** val insert_asc : n -> n list -> n list **)
+
+let rec insert_asc x l = match l with
+| [] -> x :: []
+| y :: r -> if N.leb x y then x :: l else y :: (insert_asc x r)
+
+(** val sort_asc : n list -> n list **)
+
+let sort_asc l =
+  fold_left (fun acc x -> insert_asc x acc) l []
+
+(** val index_of : n -> n list -> n -> n option **)
+
+let rec index_of x l i =
+  match l with
+  | [] -> None
+  | y :: r -> if N.eqb y x then Some i else index_of x r (N.add i (Npos XH))
+
+(** val text_remap : n list -> n list -> (n list * n) outcome **)
+
+let text_remap uniq input =
+  let unique = sort_asc uniq in
+  let rec go = function
+  | [] -> Val ([], (len unique))
+  | c :: r ->
+    (match index_of c unique N0 with
+     | Some i ->
+       bind (go r) (fun pat ->
+         let (rest, d) = pat in
+         Val
+         (((N.modulo i (Npos (XO (XO (XO (XO (XO (XO (XO (XO XH)))))))))) :: rest),
+         d))
+     | None -> Fault Panic)
+  in go input
